@@ -589,3 +589,328 @@ def mon_wire_selfcheck(tr, pid):
                 out.append(viol('wire_not_decodable', '%s:wire_not_decodable' % pid, side=side, type=e['f']['type'],
                                 err=e['wire_error']))
     return out
+
+
+# ------------------------------------------------------------------------------------------------ C06
+
+def _sat(a, b):
+    return min(MAXN, a + b)
+
+
+def mon_credit(tr, pid='C06', judge_completeness=True):
+    """Producer never sends more elements than the credit it has received so far (its own local view); at quiescence of
+    an undisturbed run it has sent min(#elements, credit) and the consumer got exactly those; credit granted by the
+    application is transmitted value for value."""
+    out = []
+    scn = tr.scn
+    complete_run = tr.quiet and not tr.faulted
+    for uid in scn.started:
+        st = scn.st[uid]
+        spec = st['spec']
+        if spec['k'] not in ('st', 'ch') or st.get('issue_raised') or st['sid'] in (None, 0):
+            continue
+        sid = st['sid']
+        req_side = spec['side']
+        for dirn in ('resp', 'req'):
+            if dirn == 'req' and spec['k'] != 'ch':
+                continue
+            src = spec.get('src') if dirn == 'resp' else spec.get('rsrc')
+            prod = OTHER[req_side] if dirn == 'resp' else req_side
+            cons = OTHER[prod]
+            # generation: a reused stream id belongs to this interaction only after its issue event
+            issue_seq = next((e['seq'] for e in tr.world.log if e['ev'] == 'issue' and e.get('uid') == uid), 0)
+            end_seq = min([e['seq'] for e in tr.world.log if e['ev'] == 'issue' and e.get('sid') == sid and
+                           e['side'] == req_side and e['seq'] > issue_seq] or [1 << 60])
+            credit = 0
+            sent = 0
+            in_train = False
+            req_in_train = False
+            over = None
+            for e in tr.world.log:
+                if e['seq'] < issue_seq or e['seq'] >= end_seq or e['side'] != prod or e['ev'] not in ('send', 'recv'):
+                    continue
+                f = e['f']
+                if f['sid'] != sid:
+                    continue
+                if e['ev'] == 'recv':
+                    if f['type'] in ('REQUEST_STREAM', 'REQUEST_CHANNEL') and dirn == 'resp':
+                        credit = _sat(credit, f.get('n') or 0)
+                    elif f['type'] == 'REQUEST_N':
+                        credit = _sat(credit, f.get('n') or 0)
+                    continue
+                if f['type'] in ('REQUEST_CHANNEL', 'REQUEST_STREAM', 'REQUEST_RESPONSE', 'REQUEST_FNF'):
+                    req_in_train = bool(f.get('follows'))
+                    continue
+                if f['type'] != 'PAYLOAD':
+                    continue
+                if req_in_train:
+                    req_in_train = bool(f.get('follows'))
+                    continue
+                start = not in_train
+                in_train = bool(f.get('follows'))
+                if start and f.get('next') and nonempty(f['data'], f['metadata']):
+                    sent += 1
+                    if sent > credit and over is None:
+                        over = {'sent': sent, 'credit': credit, 'seq': e['seq']}
+            kind = (src or {}).get('kind', 'none')
+            if over:
+                out.append(viol('sent_more_than_credit', '%s:over_credit:%s:%s' % (pid, kind, dirn), uid=uid, dir=dirn,
+                                source=kind, **over))
+            if src is None:
+                continue
+            evs = [e for e in tr.world.log if e.get('uid') == uid]
+            disturbed = any(e['ev'] in ('sub_cancel', 'on_error', 'pub_cancel', 'src_on_cancel', 'rr_cancel_call')
+                            for e in evs) or any(e['ev'] == 'hand_end' and e.get('how') == 'error' for e in evs)
+            n_els = sum(1 for l in src.get('els', []) if l[0] or l[1])
+            observed = sum(1 for e in evs if e['ev'] == 'on_next' and e['dir'] == dirn and e['side'] == cons
+                           and nonempty(e['data'], e['metadata']))
+            if complete_run and not disturbed and judge_completeness and kind != 'manual':
+                want = min(n_els, credit)
+                if sent != want:
+                    out.append(viol('credit_not_used' if sent < want else 'sent_more_than_credit',
+                                    '%s:%s:%s:%s' % (pid, 'stalled_with_credit' if sent < want else 'over_credit', kind, dirn),
+                                    uid=uid, dir=dirn, source=kind, sent=sent, credit=credit, elements=n_els))
+                elif observed != sent and st['sub'].get(dirn) is not None:
+                    out.append(viol('sent_elements_not_delivered', '%s:sent_not_delivered:%s:%s' % (pid, kind, dirn),
+                                    uid=uid, dir=dirn, sent=sent, observed=observed))
+            # credit granted by the consumer's application is transmitted value for value
+            sub = st['sub'].get(dirn)
+            if sub is not None:
+                granted = [e['n'] for e in evs if e['ev'] in ('initial_n', 'sub_request') and e['dir'] == dirn and e['side'] == cons]
+                wire = []
+                for e in tr.world.wire.get(cons, []):
+                    if e['seq'] < issue_seq or e['seq'] >= end_seq or e['f']['sid'] != sid:
+                        continue
+                    t = e['f']['type']
+                    if t in ('REQUEST_STREAM', 'REQUEST_CHANNEL') and dirn == 'resp':
+                        wire.append(e['f'].get('n'))
+                    elif t == 'REQUEST_N':
+                        wire.append(e['f'].get('n'))
+                cmp_granted = granted if complete_run else granted[:len(wire)]
+                if wire != cmp_granted[:len(wire)] or (complete_run and len(wire) != len(granted)):
+                    out.append(viol('credit_not_transmitted_exactly', '%s:credit_values:%s' % (pid, dirn), uid=uid,
+                                    dir=dirn, granted=granted[:10], wire=wire[:10]))
+    return out
+
+
+# ------------------------------------------------------------------------------------------------ C09
+
+def _generation_window(tr, uid, sid, req_side):
+    issue_seq = next((e['seq'] for e in tr.world.log if e['ev'] == 'issue' and e.get('uid') == uid), 0)
+    end_seq = min([e['seq'] for e in tr.world.log if e['ev'] == 'issue' and e.get('sid') == sid and
+                   e['side'] == req_side and e['seq'] > issue_seq] or [1 << 60])
+    return issue_seq, end_seq
+
+
+def mon_cancel(tr, pid='C09'):
+    """For every cancel the application issued while the interaction was pending: exactly one CANCEL on the canceller's
+    wire, nothing delivered to the canceller afterwards, and - once the CANCEL was delivered and the run is quiet -
+    the peer's producer was cancelled and produced nothing after processing the CANCEL."""
+    out = []
+    scn = tr.scn
+    log = tr.world.log
+    quiet = tr.quiet and not tr.faulted
+    for uid in scn.started:
+        st = scn.st[uid]
+        spec = st['spec']
+        sid = st['sid']
+        if sid in (None, 0) or st.get('issue_raised'):
+            continue
+        k = spec['k']
+        req_side = spec['side']
+        lo, hi = _generation_window(tr, uid, sid, req_side)
+        evs = [e for e in log if e.get('uid') == uid]
+        cancels = [e for e in evs if e['ev'] in ('sub_cancel', 'rr_cancel_call')]
+        for c in cancels:
+            side = c['side']
+            peer = OTHER[side]
+            dirn = c.get('dir', 'resp')
+            facts = dict(uid=uid, k=k, dir=dirn, canceller=side)
+            sent_cancels = [e for e in tr.world.wire.get(side, []) if lo <= e['seq'] < hi and e['f']['sid'] == sid
+                            and e['f']['type'] == 'CANCEL']
+            if len(sent_cancels) > 1:
+                out.append(viol('cancel_sent_twice', '%s:cancel_twice:%s' % (pid, k), n=len(sent_cancels), **facts))
+            if k == 'rr':
+                done = next((e['seq'] for e in evs if e['ev'] == 'rr_cancelled'), None)
+                resp = next((e['seq'] for e in tr.world.recv.get(side, []) if lo <= e['seq'] < hi and e['f']['sid'] == sid
+                             and e['f']['type'] in ('PAYLOAD', 'ERROR') and not e['f'].get('follows')), None)
+                raced = done is not None and resp is not None and resp < done
+                if quiet and not raced and len(sent_cancels) != 1:
+                    out.append(viol('cancel_not_sent', '%s:cancel_not_sent:rr' % pid, **facts))
+                late = [e for e in evs if e['ev'] in ('rr_result', 'rr_error') and e['seq'] > c['seq']]
+                if late:
+                    out.append(viol('delivered_after_cancel', '%s:delivered_after_cancel:rr' % pid, what=late[0]['ev'], **facts))
+            else:
+                if quiet and len(sent_cancels) != 1:
+                    out.append(viol('cancel_not_sent', '%s:cancel_not_sent:%s' % (pid, k), n=len(sent_cancels), **facts))
+                ret = next((e['seq'] for e in evs if e['ev'] == 'sub_cancel_returned' and e['side'] == side and
+                            e['dir'] == dirn and e['seq'] > c['seq']), None)
+                if ret is None:
+                    out.append(viol('cancel_raised', '%s:cancel_raised:%s' % (pid, k), **facts))
+                    ret = c['seq']
+                late = [e for e in evs if e['ev'] in ('on_next', 'on_complete', 'on_error') and e['side'] == side
+                        and e['dir'] == dirn and e['seq'] > ret]
+                if late:
+                    out.append(viol('delivered_after_cancel', '%s:delivered_after_cancel:%s:%s' % (pid, k, late[0]['ev']),
+                                    what=late[0]['ev'], **facts))
+            # peer side
+            cancel_recv = next((e['seq'] for e in tr.world.recv.get(peer, []) if lo <= e['seq'] and e['f']['sid'] == sid
+                                and e['f']['type'] == 'CANCEL'), None)
+            if cancel_recv is None or not quiet:
+                continue
+            # the stream may have been over on the peer already (then the CANCEL is legitimately dropped)
+            if k == 'rr':
+                hdone = next((e for e in evs if e['ev'] == 'hfut_done'), None)
+                hcalled = any(e['ev'] == 'handler' and e['side'] == peer for e in evs)
+                mode = spec.get('resp', {}).get('mode', 'now')
+                resolved_before = any(e['ev'] in ('hand', 'hfut_fail') and e['seq'] < cancel_recv for e in evs
+                                      if e['side'] == peer)
+                if hcalled and mode not in ('raise',) and not resolved_before:
+                    if hdone is None:
+                        out.append(viol('producer_not_cancelled', '%s:producer_not_cancelled:rr' % pid, **facts))
+                    elif not hdone['cancelled'] and hdone['seq'] > cancel_recv:
+                        out.append(viol('producer_not_cancelled', '%s:producer_finished_after_cancel:rr' % pid, **facts))
+                continue
+            src = spec.get('src') if dirn == 'resp' else spec.get('rsrc')
+            if src is None:
+                continue
+            kind = src.get('kind', 'manual')
+            pe = [e for e in evs if e['side'] == peer and e.get('dir') == dirn]
+            subscribed = any(e['ev'] in ('pub_subscribed', 'gen_start', 'obs_subscribed') for e in pe) or kind in ('gen', 'agen')
+            handler_called = any(e['ev'] == 'handler' and e['side'] == peer for e in evs) or dirn == 'req'
+            finished_before = any(e['ev'] in ('hand_end', 'src_on_complete', 'gen_exhausted') and e['seq'] < cancel_recv
+                                  for e in pe) or \
+                any(e['ev'] == 'hand' and e.get('complete') and e['seq'] < cancel_recv for e in pe)
+            terminal_sent_before = any(e['seq'] < cancel_recv and lo <= e['seq'] and e['f']['sid'] == sid and
+                                       ((e['f']['type'] == 'PAYLOAD' and e['f'].get('complete') and not e['f'].get('follows'))
+                                        or e['f']['type'] == 'ERROR') for e in tr.world.wire.get(peer, []))
+            # the producer may have finished on its own while the CANCEL was under way (its terminal frame is queued or
+            # sent, nothing is yielded after the CANCEL): then there is nothing left to cancel
+            terminal_sent = any(lo <= e['seq'] < hi and e['f']['sid'] == sid and
+                                ((e['f']['type'] == 'PAYLOAD' and e['f'].get('complete') and not e['f'].get('follows'))
+                                 or e['f']['type'] == 'ERROR') for e in tr.world.wire.get(peer, []))
+            hand_after = any(e['ev'] == 'hand' and e['seq'] > cancel_recv and e.get('run', 1) == 1 for e in pe)
+            if not handler_called or spec.get('handler_raises') or terminal_sent_before:
+                continue
+            if kind == 'manual':
+                if subscribed and not finished_before and not any(e['ev'] == 'pub_cancel' for e in pe):
+                    out.append(viol('producer_not_cancelled', '%s:producer_not_cancelled:manual:%s' % (pid, dirn), **facts))
+            elif kind in ('gen', 'agen'):
+                if not finished_before:
+                    if not any(e['ev'] == 'src_on_cancel' for e in pe):
+                        out.append(viol('producer_not_cancelled', '%s:producer_not_cancelled:%s:%s' % (pid, kind, dirn), **facts))
+                    started = [e for e in pe if e['ev'] == 'gen_start' and e.get('run', 1) == 1]
+                    if started and not any(e['ev'] == 'gen_finally' and e.get('run', 1) == 1 for e in pe):
+                        out.append(viol('generator_not_closed', '%s:generator_not_closed:%s:%s' % (pid, kind, dirn), **facts))
+            elif kind.endswith('bp'):
+                if not finished_before and any(e['ev'] == 'gen_start' for e in pe) and \
+                        not any(e['ev'] in ('feedback_completed', 'gen_finally') for e in pe):
+                    out.append(viol('producer_not_cancelled', '%s:producer_not_cancelled:%s:%s' % (pid, kind, dirn), **facts))
+            # production stops: nothing yielded / handed after the CANCEL was processed
+            late_hand = [e for e in pe if e['ev'] == 'hand' and e['seq'] > cancel_recv and e.get('run', 1) == 1]
+            if late_hand:
+                out.append(viol('production_after_cancel', '%s:production_after_cancel:%s:%s' % (pid, kind, dirn),
+                                n=len(late_hand), **facts))
+            handed_before = sum(1 for e in pe if e['ev'] == 'hand' and e['seq'] < cancel_recv and e.get('run', 1) == 1
+                                and nonempty(e['data'], e['metadata']))
+            sent_els = 0
+            in_train = False
+            req_train = False
+            for e in tr.world.wire.get(peer, []):
+                if not (lo <= e['seq'] < hi) or e['f']['sid'] != sid:
+                    continue
+                f = e['f']
+                if f['type'] in REQ_TYPES:
+                    req_train = bool(f.get('follows'))
+                    continue
+                if f['type'] != 'PAYLOAD':
+                    continue
+                if req_train:
+                    req_train = bool(f.get('follows'))
+                    continue
+                start = not in_train
+                in_train = bool(f.get('follows'))
+                if start and f.get('next') and nonempty(f['data'], f['metadata']):
+                    sent_els += 1
+            if sent_els > handed_before + sum(1 for e in pe if e['ev'] == 'hand' and e['seq'] > cancel_recv):
+                out.append(viol('payload_after_cancel', '%s:payload_after_cancel:%s:%s' % (pid, kind, dirn),
+                                sent=sent_els, handed_before_cancel=handed_before, **facts))
+    return out
+
+
+# ------------------------------------------------------------------------------------------------ C10
+
+def api_terminated(tr, uid):
+    """The interaction is over as far as the application can tell (terminal signal observed or cancel issued in every
+    direction it takes part in, publishers done)."""
+    st = tr.scn.st[uid]
+    spec = st['spec']
+    k = spec['k']
+    evs = [e for e in tr.world.log if e.get('uid') == uid]
+    if st.get('issue_raised'):
+        return True
+    if k == 'mp':
+        return True
+    if k == 'fnf':
+        return any(e['ev'] == 'fnf_sent' for e in evs)
+    if k == 'rr':
+        return any(e['ev'] in ('rr_result', 'rr_error', 'rr_cancelled') for e in evs)
+
+    def sub_done(dirn):
+        s = st['sub'].get(dirn)
+        if s is None:
+            return True
+        return s.terminal or s.cancelled
+
+    def pub_done(dirn):
+        p = st['pub'].get(dirn)
+        if p is not None:
+            return p.done or p.cancelled
+        if dirn in st['libpub']:
+            pe = [e for e in evs if e.get('dir') == dirn]
+            return any(e['ev'] in ('src_on_complete', 'src_on_cancel', 'hand_end', 'feedback_completed', 'gen_finally')
+                       for e in pe) or any(e['ev'] == 'hand' and e.get('complete') for e in pe)
+        return True
+
+    if k == 'st':
+        return sub_done('resp')
+    # channel: a requester-side error/cancel ending leaves the other direction to finish on its own
+    return sub_done('resp') and sub_done('req') and pub_done('resp') and pub_done('req')
+
+
+def mon_no_state(tr, pid='C10'):
+    """At quiescence neither endpoint keeps a stream table entry or a partial frame for an interaction that has
+    terminated at the API; when everything has terminated both tables and both caches are empty."""
+    out = []
+    if not tr.quiet or tr.faulted:
+        return out
+    scn = tr.scn
+    term = {uid: api_terminated(tr, uid) for uid in scn.started}
+    for side in ('c', 's'):
+        fin = tr.final[side]
+        for sid in fin['streams']:
+            # which interaction does this id belong to now? (ids may have been reused)
+            owners = [uid for uid in scn.started if scn.st[uid]['sid'] == sid and
+                      (scn.st[uid]['spec']['side'] == side or scn.st[uid]['spec']['side'] == OTHER[side])
+                      and (sid % 2 == 1) == (scn.st[uid]['spec']['side'] == 'c')]
+            if not owners:
+                out.append(viol('stream_entry_for_unknown_interaction', '%s:unknown_entry' % pid, side=side, sid=sid))
+                continue
+            uid = owners[-1]
+            if term[uid]:
+                spec = scn.st[uid]['spec']
+                role = 'requester' if spec['side'] == side else 'responder'
+                out.append(viol('stream_state_survives', '%s:leak:%s:%s' % (pid, spec['k'], role), side=side, sid=sid,
+                                uid=uid, k=spec['k'], role=role, ending=_ending(tr, uid)))
+        if fin['frags']:
+            out.append(viol('partial_frame_survives', '%s:partial_frame' % pid, side=side, sids=fin['frags']))
+    return out
+
+
+def _ending(tr, uid):
+    kinds = []
+    for e in tr.world.log:
+        if e.get('uid') == uid and e['ev'] in ('sub_cancel', 'rr_cancel_call', 'on_error', 'rr_error', 'on_complete',
+                                               'rr_result', 'hand_end', 'pub_cancel', 'src_on_cancel', 'rr_cancelled'):
+            kinds.append('%s@%s' % (e['ev'], e['side']))
+    return kinds[:12]
